@@ -26,6 +26,7 @@ The merging of variables by the compiler (`mux_envs`) is modelled for the core f
   their own bindings in front; so the environments merged after an `if` or the arms of a `match` always line up;
 * `C14_merge`: the variable-by-variable merge of two such environments is the environment of the
   branch taken;
+* `C14_compiled_element_frame`: an array write leaves the wires of all other elements untouched;
 * `C14_compiled_state`: after any statements of the fragment — assignments inside branches, inside match arms, inside
   the right operand of `&&` / `||`, inside nested blocks with shadowing, inside unrolled loop bodies, to single
   elements of arrays and components of tuples — the wires of every
@@ -211,6 +212,18 @@ theorem C14_compiled_call_frame (call : Ctx) (fn : String) (args : ExprList) (be
       exact ⟨vs, pargs, hl⟩
     · simp at h
   · simp at h
+
+/-- **`a[i] = v` touches one element**: the mux chains of an array write (`Arith.writeAll`, one chain per element and
+wire) leave the wires of every element other than the one the index spells exactly as they were — and all of them when
+the index is out of bounds -/
+theorem C14_compiled_element_frame (sz n : Nat) (idx sub cur : List Bool) (hs : sub.length = sz)
+    (hcur : cur.length = n * sz) (hn : n ≤ 2 ^ idx.length) :
+    (Arith.writeAll idx sub 0 (chunks sz n cur)).flatten =
+      if Arith.toNat idx < n then
+        cur.take (Arith.toNat idx * sz) ++ sub ++ cur.drop (Arith.toNat idx * sz + sz)
+      else cur := by
+  have := writeAll_flat sz idx sub hs n cur 0 hcur (by omega)
+  simpa using this
 
 /-- non-vacuity: `if c { x = 1u8; y = x; } else { y = 2u8; }` — both variables are merged -/
 example : bitStmts ⟨callAt ⟨[], [], [], []⟩ 0, fun _ => none⟩ [("c", .s .bool, [false]), ("x", .s (.int .u8), enc .u8 7), ("y", .s (.int .u8), enc .u8 0)]
